@@ -51,7 +51,7 @@ func c13GenURL(t *rapid.T, domains []string) (string, string) {
 	})
 	port, oi := pick("port", []string{"", "", "", ":443", ":8443", ":", ":0x1bb", ":99999", ":443@evil.com"})
 	path, ai := pick("path", []string{"", "/", "/cb", "/cb", "/a/../b", "/a/%2e%2e/b", "/..", "/cb/..;/x", "//x", "/\\..\\x", "/%2E%2E/", "/cb/.", "/a/..%2fb", "/x/.%2e/y", "/%2e%2e", "/cb%3Fx=1"})
-	query, qi := pick("query", []string{"", "", "", "?", "?x=1", "?redirect=https://evil.com", "?code=1"})
+	query, qi := pick("query", []string{"", "", "", "?", "?x=1", "?redirect=https://evil.com", "?code=1", "?next=https://evil.net/;", "?x;y", "?a=%zz", "?;", "?a=1;b=2&c=3;d=4", "?%", "?=", "?&"})
 	frag, fi := pick("frag", []string{"", "", "", "#", "#frag", "#@evil.com/"})
 	u := scheme + sep + userinfo + host + port + path + query + frag
 	mut := rapid.IntRange(0, 9).Draw(t, "mut")
@@ -225,7 +225,7 @@ func c13Check(c c13Case) *vResult {
 
 func TestVerifC13Redirect(t *testing.T) {
 	vRunRapid(t,
-		"rapid: redirect_uri assembled from an adversarial component grammar (11 schemes x 9 separators x 10 user-info x 31 hosts x 9 ports x 16 paths x 7 queries x 6 fragments, plus control-character insertion and random strings) x client config (domains with/without leading dot, patterns, both, none) x known/unknown client; non-trivial = Go parses the URL and it mentions a configured domain; distinct = (component classes, config class)",
+		"rapid: redirect_uri assembled from an adversarial component grammar (11 schemes x 9 separators x 10 user-info x 31 hosts x 9 ports x 16 paths x 15 queries x 6 fragments, plus control-character insertion and random strings) x client config (domains with/without leading dot, patterns, both, none) x known/unknown client; non-trivial = Go parses the URL and it mentions a configured domain; distinct = (component classes, config class)",
 		c13Gen, c13Check)
 }
 
